@@ -98,10 +98,12 @@ Example C05_nonvacuous :
   Forall initial [list_state 2; range_state 3 1] /\
   visited_indexes (run 6 [list_state 2; range_state 3 1] []) = Some [[0; 3]; [1; 3]; [0; 2]; [1; 2]; [0; 1]; [1; 1]].
 Proof.
-  repeat split; try (vm_compute; reflexivity); try (vm_compute; intuition discriminate).
-  repeat constructor.
-  - right. exists 2. split; [vm_compute; intuition discriminate | reflexivity].
-  - left. exists 3, 1. repeat split; reflexivity.
+  split; [vm_compute; split; discriminate|].
+  do 6 (split; [vm_compute; reflexivity|]).
+  split; [|vm_compute; reflexivity].
+  constructor; [|constructor; [|constructor]].
+  - right. exists 2. split; [vm_compute; split; discriminate | reflexivity].
+  - left. exists 3, 1. split; [reflexivity | split; reflexivity].
 Qed.
 Example C05_lr_nonvacuous : 100 < nstates /\ 100 < nrules /\ (50 < length all_token_values)%nat.
 Proof. exact (conj (proj1 lr_nonvacuous) (conj (proj1 (proj2 lr_nonvacuous)) (proj1 (proj2 (proj2 lr_nonvacuous))))). Qed.
